@@ -228,7 +228,7 @@ func runC14x(t *testing.T, c *c14Case, stalls map[int]time.Duration) (err error,
 	if c.Variant == "sack" {
 		src.onStage = func(int) [][]rawItem {
 			// the connection is in the accept queue by now: learn the client's port and fabricate the SYN-ACK
-			srv.acceptPending(NewNetWorld(FlowScript{}))
+			srv.acceptPending(NewNetWorld(FlowScript{}), false)
 			if len(srv.Remotes) == 0 {
 				return [][]rawItem{nil, nil, nil}
 			}
